@@ -1,11 +1,14 @@
 (* Extraction of the executable model to OCaml (ExtrOcamlBasic only: bool, option, unit,
    list, prod, sumbool, sumor are mapped to OCaml's; Z, N, positive, nat stay inductive). *)
 From Coq Require Import Extraction ExtrOcamlBasic ZArith List.
-From PV Require Import Model.FD.
+From PV Require Import Model.FD Model.Term Model.Subst Model.Unify Model.State Model.Engine.
 Extraction Language OCaml.
 Set Extraction AccessOpaque.
 Extraction "model.ml"
-  Z.add Z.sub Z.mul Z.opp Z.of_nat Z.to_nat Z.quotrem Z.compare Z.eqb Z.ltb Z.leb
+  Z.add Z.sub Z.mul Z.opp Z.of_nat Z.to_nat Z.quotrem Z.compare Z.eqb Z.ltb Z.leb N.of_nat N.to_nat
   fd_iter fd_iter_rev fd_min fd_max fd_is_singleton fd_singleton_value fd_contains
   fd_copy_before fd_drop_before fd_intersect fd_diff fd_is_disjoint fd_eqb fd_eqb_subset
-  fd_from_vec fd_from_vec_nodedup fd_from_range fd_from_value.
+  fd_from_vec fd_from_vec_nodedup fd_from_range fd_from_value
+  term_eqb list_term improper_term walk_star wk unify occurs dfuel
+  state_unify state_disunify empty_state
+  query_goal start sfuel run_query relevant_constraints.
